@@ -1,0 +1,14 @@
+//go:build verif
+
+package workerpool
+
+// VerifHookSubmit is a yield point for the verification harness (build tag verif only). If set, Submit calls it after
+// the running-check has passed and before the task is counted and queued. It must be set before any WorkerPool is used.
+var VerifHookSubmit func(w *WorkerPool)
+
+// verifHookSubmit is called by Submit between the running-check and increasePendingTasks / Queue.Push.
+func verifHookSubmit(w *WorkerPool) {
+	if hook := VerifHookSubmit; hook != nil {
+		hook(w)
+	}
+}
